@@ -327,10 +327,8 @@ func (e *Eng) execAssign(st *State, s *ast.AssignStmt) *State {
 		keys := []string{"assign " + e.srcFull(s.Lhs[0])}
 		var idxVal *Val
 		if ix, ok := ast.Unparen(s.Lhs[0]).(*ast.IndexExpr); ok {
-			if id, ok := ast.Unparen(ix.X).(*ast.Ident); ok {
-				keys = append(keys, "assign "+id.Name+"[*]")
-				idxVal = e.eval(st, ix.Index)
-			}
+			keys = append(keys, "assign "+e.srcFull(ast.Unparen(ix.X))+"[*]")
+			idxVal = e.eval(st, ix.Index)
 		}
 		if sx, ok := ast.Unparen(s.Lhs[0]).(*ast.SelectorExpr); ok {
 			if id, ok := ast.Unparen(sx.X).(*ast.Ident); ok {
